@@ -54,7 +54,12 @@ def h_pbf_block(I, job):
     kb = sym_bytes(I, job['keylen'], 'k'); vb = sym_bytes(I, 1, 'v')
     st = f_bytes(1, b'') + f_bytes(1, [I.term(b, 8) for b in kb]) + f_bytes(1, [I.term(b, 8) for b in vb])
     kv = job.get('keys_vals', [1, 2, 0])
-    dense = f_bytes(1, varint(zigzag(10))) + f_bytes(8, varint(zigzag(5))) + f_bytes(9, varint(zigzag(7))) + f_bytes(10, sum((varint(x) for x in kv), []))
+    info = []
+    if job.get('user_sid'):
+        # DenseInfo with a symbolic (zig-zag) user string index: negative and too large indexes included
+        us = I.named('user_sid', 7)
+        info = f_bytes(5, f_bytes(1, varint(1)) + f_bytes(5, [z3.ZeroExt(1, I.term(us, 7))]))
+    dense = f_bytes(1, varint(zigzag(10))) + info + f_bytes(8, varint(zigzag(5))) + f_bytes(9, varint(zigzag(7))) + f_bytes(10, sum((varint(x) for x in kv), []))
     msg = f_bytes(1, st) + f_bytes(2, f_bytes(2, dense))
     if job.get('mutate') is not None:
         m = I.named('mut', 8); msg = list(msg); msg[job['mutate'] % len(msg)] = I.term(m, 8)
@@ -82,8 +87,8 @@ def harnesses(tier):
                 desc='O5mParser on files whose single dataset (node / way / relation / bounding box / timestamp / symbolic type) has arbitrary payload bytes: decoders stay inside the dataset, string-table references are validated, what is delivered is traversed completely',
                 bounds='payload of <= %d symbolic bytes after structural prefixes' % K),
         Harness('pbf_block', 'decode', h_pbf_block, reach=('end', 'accepted', 'rejected'), sanitize=True,
-                jobs=[dict(keylen=3), dict(keylen=2, keys_vals=[1, 2, 1, 2, 0]), dict(keylen=1, keys_vals=[1, 9, 0]), dict(keylen=1, keys_vals=[1, 2])] + [dict(keylen=1, mutate=m) for m in ((3, 9, 14, 17, 20, 23, 26) if q else range(2, 30))],
-                desc='PBFPrimitiveBlockDecoder on a block with one dense node and one tag: arbitrary bytes (including NUL) inside the string-table entries, out-of-range string indexes, unterminated keys_vals, and one arbitrary byte at structural positions: memory-safe decoding and complete traversal of the delivered node (tags)',
+                jobs=[dict(keylen=3), dict(keylen=2, keys_vals=[1, 2, 1, 2, 0]), dict(keylen=1, keys_vals=[1, 9, 0]), dict(keylen=1, keys_vals=[1, 2]), dict(keylen=1, user_sid=1)] + [dict(keylen=1, mutate=m) for m in ((3, 9, 14, 17, 20, 23, 26) if q else range(2, 30))],
+                desc='PBFPrimitiveBlockDecoder on a block with one dense node and one tag: arbitrary bytes (including NUL) inside the string-table entries, out-of-range string indexes (tags and the delta-coded user string index of DenseInfo, negative included), unterminated keys_vals, and one arbitrary byte at structural positions: memory-safe decoding and complete traversal of the delivered node (tags)',
                 bounds='1 node, string table of 3 entries, <= 3 symbolic bytes per job'),
     ]
     return hs
